@@ -323,6 +323,7 @@ class Execution:
         self.held_vars = set()   # variables of which the program holds a numpy view
         self.held_dump = {}
         self._last_raw = None
+        self.ballast_keep = []
         self.width = width
         self.stats = {}
         self.probe = probe       # optional callable(execution, event, var) for reach counters
@@ -419,6 +420,14 @@ class Execution:
                 self._count("obs_skipped")
             if before and not self._pending(act["step"].get("src")):
                 self._count("obs_materialised")
+            return
+        if k == "ballast":
+            # environment action: from now on the process also holds n other live arrays with live unread
+            # selections (read-only with respect to the program's variables)
+            for j in range(int(act["n"])):
+                a = RaggedArray([[j, j + 1], [j + 2]])
+                self.ballast_keep.append((a, a[0:1]))
+            self._count("ballast_actions")
             return
         v = act["v"]
         if v not in self.env:
